@@ -316,6 +316,8 @@ def run(chk, F):
     chk.run_rule("C12.inmem-guard", "every Store::enqueue of the hybrid layer is control-dependent on location != InMem of the entry written", 5, inmem_guard, F)
     chk.run_rule("C12.policy-guard", "insert-time and post-fetch writes only under WriteOnInsertion; the eviction pipe only for (store, WriteOnEviction)", 5, policy_guard, F)
     chk.run_rule("C12.enqueue-guards-exact", "no condition other than the prescribed ones guards a disk write of the hybrid layer (admitted entries do reach the disk tier)", 5, enqueue_guards_exact, F)
+    from rules import C15 as _C15
+    chk.run_rule("C12.flag-writers", "who may write the engine's `active` flag and the probation mark", 2, _C15.flag_writers, F)
     chk.run_rule("C12.origin-only", "the post-fetch write is control-dependent on source() == Outer", 1, origin_only, F)
     chk.run_rule("C12.young", "BlockEngine::enqueue: Age::Young returns before sequence allocation and submit", 3, young, F)
     chk.run_rule("C12.probation-lifecycle", "the reclaim mark is per block generation: set by pickers, read into the entry's age, cleared by reset (which covers every field) on reclaim", 6, probation_lifecycle, F)
